@@ -36,9 +36,15 @@ Bound == Len(mq) <= MaxQ /\ nextTok <= MaxTok /\ pendN <= 3 /\ cnt <= 3
 CalmLandOK == [][\A n \in 1..Len(mq) :
                    (Land(n) /\ calm /\ M2 <= par.maxDE /\ \A i \in 1..n : mq[i].k = "des") => out' = "ok"]_vars
 
-\* liveness facet (d): if the DE queries eventually succeed, the sender eventually delivers and the schedule
-\* stays calm, a low queue is topped up
-Fair == WF_vars(Tick("ok", "ok")) /\ WF_vars(\E n \in 1..Len(mq) : Land(n))
+\* liveness facet (d): where the code retries nothing is lost for good.  If interval steps with succeeding queries
+\* keep happening (the ticker) a low queue is topped up again and again (failing steps in between change nothing);
+\* if notifications / start-up replays with a succeeding query keep happening for an attempt that still waits for the
+\* member's share and the sender keeps landing transactions, the share reaches the chain or the attempt ends.
+Fair == /\ WF_vars(Tick("ok", "ok"))
+        /\ SF_vars(\E n \in 1..Len(mq) : Land(n))
+        /\ \A sid \in Sigs : SF_vars(HandleSigning(sid, "ok") /\ mq' # mq)
 LiveSpec == MCInit /\ [][MCNext]_vars /\ Fair
-ToppedUp == []<>(Len(cq) + InflightDE >= M2 \/ ~calm \/ nextTok + M2 > MaxTok)
+ToppedUp == []<>(Len(cq) + InflightDE >= M2 \/ nextTok + M2 > MaxTok)
+Waiting(sid) == sg[sid].a > 0 /\ sg[sid].open /\ sg[sid].me /\ ~sg[sid].signed
+ShareArrives == \A sid \in Sigs : Waiting(sid) ~> (~Waiting(sid) \/ sg[sid].de \notin priv)
 =============================================================================
